@@ -7,8 +7,11 @@ cd /verif
 git -C /repo diff --quiet || { echo "/repo has local changes"; exit 2; }
 git -C /repo apply /verif/seeded/$name/patch.diff || { echo "patch does not apply"; exit 2; }
 for id in "$@"; do
+  # the evidence file of the unchanged tree is kept: evidence must describe runs against /repo as committed
+  cp evidence/$id.json .work/evidence_keep_$id.json 2>/dev/null
   bin/check $id > .work/seed_${name}_$id.log 2>&1
   rc=$?
+  [ -f .work/evidence_keep_$id.json ] && mv .work/evidence_keep_$id.json evidence/$id.json
   echo "seed=$name check=$id exit=$rc  $(grep -c '^VIOLATION' .work/seed_${name}_$id.log) violation lines, $(grep -c '^UNDECIDED' .work/seed_${name}_$id.log) undecided"
   grep -E '^VIOLATION|^UNDECIDED' .work/seed_${name}_$id.log | head -4 | cut -c1-220
 done
